@@ -915,6 +915,6 @@ META = {
              "theorems: shapes >= 1, block sizes >= 1 (a negative block size makes num_overviews loop forever: Err EOther in "
              "the model), sizes >= 0, metas with uniform plane count (as built by _make_empty_cog).  Pixel placement / padding "
              "fill / decoding are tested, not proved.  No axioms."),
-    "technique": "Coq proof over hand-written Gallina model + exhaustive small-domain and end-to-end differential correspondence (vm_compute)",
+    "technique": "Coq proof over hand-written Gallina model + exhaustive small-domain and end-to-end differential correspondence (vm_compute) + leaf functions regenerated from source by py2v on every run and proved equal to the model (source_is_model theorem)",
     "design_ref": "DESIGN.md section 5, C05",
 }
